@@ -233,7 +233,7 @@ def run(ctx):
         for fn in sorted(os.listdir(CORPUS)):
             with open(os.path.join(CORPUS, fn)) as f:
                 hists.append(json.load(f)['history'])
-    for _ in range(70 if quick else 500):
+    for _ in range(70 if quick else 1500):
         hists.append(O.gen_history(rng))
     prop_cases, prop_meta, corr_cases, corr_meta = [], [], [], []
     for hi, ops in enumerate(hists):
